@@ -268,13 +268,15 @@ type c11Heartbeat struct {
 	done   chan struct{}
 	mu     sync.Mutex
 	maxLag time.Duration
+	last   time.Time
+	step   time.Duration
 }
 
 func c11StartHeartbeat(step time.Duration) *c11Heartbeat {
-	h := &c11Heartbeat{stop: make(chan struct{}), done: make(chan struct{})}
+	h := &c11Heartbeat{stop: make(chan struct{}), done: make(chan struct{}), last: time.Now(), step: step}
 	go func() {
 		defer close(h.done)
-		last := time.Now()
+		last := h.last
 		for {
 			select {
 			case <-h.stop:
@@ -283,22 +285,26 @@ func c11StartHeartbeat(step time.Duration) *c11Heartbeat {
 			}
 			time.Sleep(step)
 			now := time.Now()
-			if lag := now.Sub(last) - step; lag > 0 {
-				h.mu.Lock()
-				if lag > h.maxLag {
-					h.maxLag = lag
-				}
-				h.mu.Unlock()
+			h.mu.Lock()
+			if lag := now.Sub(last) - step; lag > h.maxLag {
+				h.maxLag = lag
 			}
+			h.last = now
+			h.mu.Unlock()
 			last = now
 		}
 	}()
 	return h
 }
 
+// lag is the longest delay seen so far, including a beat that is overdue right now (the heartbeat
+// goroutine may not have run yet after a stall).
 func (h *c11Heartbeat) lag() time.Duration {
 	h.mu.Lock()
 	defer h.mu.Unlock()
+	if cur := time.Since(h.last) - h.step; cur > h.maxLag {
+		h.maxLag = cur
+	}
 	return h.maxLag
 }
 
